@@ -786,10 +786,19 @@ func ruleC10_4(c *Ctx, r *Rep) {
 							}
 							if sp.target == "select:subscription_id" {
 								// the ids come from a SELECT of the touched deliveries' subscription column in this operation
+								cands := c.findStmts(sp.fn, "deliveries", "select")
+								// a lookup helper shared with another action (`distinctSubscriptionIDs(ctx, tx, preds...)`)
 								for _, q := range c.EntShape().Stmts {
-									if q.Table != "deliveries" || q.Kind != "select" || c.Owner(q) != sp.fn {
+									if q.Table != "deliveries" || q.Kind != "select" {
 										continue
 									}
+									for _, o := range c.effectiveOwners(top(q.Fn), 0) {
+										if c.Key(o) == sp.fn {
+											cands = append(cands, q)
+										}
+									}
+								}
+								for _, q := range cands {
 									selSub := false
 									for _, col := range q.SelCols {
 										if col == "subscription_id" {
